@@ -70,6 +70,15 @@ FS = "traph/storage/file.py"
 mut("revert-F5", ND, "                    if raw is None:\n                        break\n", "", ["C18"])
 mut("corruption-check-off", FS, "        if file_length % self.block_size:\n            return True", "        if file_length % self.block_size:\n            return False", ["C18"])
 mut("missing-store-tolerated", T, "            if lru_trie_file_exists and not link_store_file_exists:\n                raise TraphException(", "            if False:\n                raise TraphException(", ["C18"])
+mut("resume-gte", LT, "                if pagination_path is None or current_lru > pagination_lru:", "                if pagination_path is None or current_lru >= pagination_lru:", ["C09", "C10"])
+mut("prune-gt", LT, "            return current_path >= p\n", "            return current_path > p\n", ["C09", "C10"])
+mut("lookahead-off-by-one", T, "        k = page_count + 1 if page_count is not None else None", "        k = page_count + 2 if page_count is not None else None", ["C09"])
+mut("no-path-reset", T, "                last_path = path\n                last_path_i = i\n\n            # We reset the pagination path for next prefix\n            pagination_path = None\n\n        return {\"done\": True, \"count\": n",
+    "                last_path = path\n                last_path_i = i\n\n        return {\"done\": True, \"count\": n", ["C09"])
+mut("count-crawled-wrong", T, "                if crawled:\n                    c += 1\n\n                pages.append", "                c += 1\n\n                pages.append", ["C09"])
+mut("revert-F4", T, "                if not node.has_outlinks():\n                    last_path = path\n                    last_path_i = i\n                    continue",
+    "                if not node.has_outlinks():\n                    last_path = path\n                    continue", ["C10"])
+mut("pagelinks-count-pages-not-linkbearing", T, "                if newlinks:\n                    n += 1\n\n                    if source_page_count", "                if True:\n                    n += 1\n\n                    if source_page_count", ["C10"])
 
 def main():
     args = [a for a in sys.argv[1:] if not a.startswith("--")]
